@@ -123,6 +123,32 @@ CLAIMED.update({
               "relative (5e-4 Weibull)."),
         technique="TLA+ symbolic terms + case enumeration by TLC; numeric instantiation on the code; code->spec conformance",
         design_ref="4/C08, 2.4, 6"),
+    "C09": dict(
+        engine="Trajectory", category="other",
+        text=("specs/Trajectory.tla states the trajectory of each model kind as a symbolic term (reparametrized age, logistic / linear / "
+              "shared-speed logistic curve) and the layout machine of estimate(); TLC enumerates every request of 1-3 <<individual, "
+              "age>> pairs (interleaved, repeated, unsorted) in dict and MultiIndex form and checks EchoIdsAndAges / OrderPreserved; "
+              "each request is run through model.estimate on one model object per configuration whose parameters are replaced in place "
+              "before every request, with seeded individual parameters and ages (sometimes exactly 0 or the reference time); TLC checks "
+              "the returned rows against the layout machine and the verdicts (TrajectoryTrace.tla): values equal the evaluated term, "
+              "outputs in [0,1], non-decreasing in age, 1/(1+g) at the reference time, finite far away."),
+        note=("Level 'other': value equality rests on the generic float64 term evaluator applied to TLA+ terms (tolerance 2e-5 + 2e-4 "
+              "relative); TLC decides the layout machine exhaustively on the enumerated requests. Known finding: repeated rows in "
+              "MultiIndex requests are multiplied."),
+        technique="TLA+ symbolic terms + layout state machine; spec-enumerated requests run on the code; code->spec conformance",
+        design_ref="4/C09"),
+    "C10": dict(
+        engine="Trajectory", category="other",
+        text=("TLC checks ZeroMean and GaugeInvariant of the re-centring action of specs/Trajectory.tla exactly on every triple of "
+              "integer log-accelerations; the enumerated triples are turned into real model states (logistic / linear / joint, with "
+              "and without sources, seeded population values, optionally an extreme progressor, a large Weibull scale or a reverted "
+              "proposal on the velocities), the real re-centring is applied and TLC checks the verdicts (TrajectoryTrace.tla): "
+              "trajectories, attachments and event likelihoods unchanged, zero-mean log-accelerations, every mixing-matrix row "
+              "orthogonal in the metric to the progression direction."),
+        note=("Level 'other': invariance and orthogonality are numeric facts judged with tolerances 1e-5 (1 + |value|), 1e-6, 1e-5 "
+              "||row|| ||G v0||; TLC decides the gauge algebra exactly and enumerates the patterns."),
+        technique="TLA+ gauge algebra checked exactly by TLC; spec-enumerated patterns run on real states; code->spec conformance",
+        design_ref="4/C10"),
     "C11": dict(
         engine="Saem", category="model_checking",
         text=("TLC checks LogExactlyWhenDue, LogReadOnly, AcceptedCompletes and Termination of specs/Saem.tla over every "
@@ -198,6 +224,7 @@ CLAIMED.update({
 })
 
 ENGINES = {
+    "Trajectory": dict(path="specs/Trajectory.tla", kind="TLA+ trajectory terms, estimate() layout machine and gauge algebra (+ TrajectoryTrace.tla)"),
     "Likelihood": dict(path="specs/Likelihood.tla", kind="TLA+ symbolic negative log-densities with Weibull case structure (+ LikelihoodTrace.tla)"),
     "Masking": dict(path="specs/Masking.tla", kind="TLA+ extended-real algebra of masked tensors (+ MaskingTrace.tla)"),
     "Cohort": dict(path="specs/Cohort.tla", kind="TLA+ scenario table of cohort transformations (+ CohortTrace.tla)"),
